@@ -429,8 +429,150 @@ def from_string_group(nlines):
     return run
 
 
+# writer field -> (domain of the written quantity, in the unit it is printed in)
+NUMERIC = {"i": (0, 180), "Ω": (0, 360), "ω": (0, 360), "M": (0, 360), "n": (0, 17), "e": (0, 1), "day": (1, 367)}
+
+
+def numeric_group():
+    """fixed-point fields: a value v of the field's domain is written with the template's precision d and width w -- an
+    integer k of last-digit units with |v 10^d - k| <= 1/2 -- and read back by float(); the field must not overflow its
+    columns (k < 10^(w-1)) and must read back as k / 10^d.  The eccentricity is written as '{:.7f}'.format(e)[2:] (the AST
+    of from_orbit is inspected for the slice): the two dropped characters are '0.' only while k < 10^7.
+    What is modelled is the decimal rounding of str.format; binary64 effects on ties are outside."""
+    templates, slices = _ast_layout()
+    src = open(importlib.import_module(TLE).__file__).read()
+    cls = [n for n in ast.parse(src).body if isinstance(n, ast.ClassDef) and n.name == "Tle"][0]
+    fo = [n for n in cls.body if isinstance(n, ast.FunctionDef) and n.name == "from_orbit"][0]
+    # the eccentricity keyword: '{:.Nf}'.format(e)[a:]
+    e_spec = None
+    for n in ast.walk(fo):
+        if isinstance(n, ast.keyword) and n.arg == "e" and isinstance(n.value, ast.Subscript):
+            call, sl = n.value.value, n.value.slice
+            if isinstance(call, ast.Call) and isinstance(call.func, ast.Attribute) and call.func.attr == "format" and \
+                    isinstance(call.func.value, ast.Constant) and isinstance(sl, ast.Slice) and isinstance(sl.lower, ast.Constant):
+                mt = __import__("re").fullmatch(r"\{:\.(\d+)f\}", call.func.value.value)
+                if mt:
+                    arg = call.args[0]
+                    cap = None                 # '{:.7f}'.format(min(e, CAP))[2:]: the written value saturates at CAP
+                    if isinstance(arg, ast.Call) and isinstance(arg.func, ast.Name) and arg.func.id == "min" and len(arg.args) == 2:
+                        consts = [a.value for a in arg.args if isinstance(a, ast.Constant)]
+                        cap = consts[0] if len(consts) == 1 else None
+                    e_spec = (int(mt.group(1)), int(sl.lower.value), ast.unparse(arg), cap)
+    obs = []
+    found = set()
+    for ln in ("line1", "line2"):
+        cols, _ = _columns(templates[ln])
+        for c in cols:
+            if c[0] != "field" or c[1] not in NUMERIC:
+                continue
+            fld, w, spec = c[1], c[3], c[4]
+            lo, hi = NUMERIC[fld]
+            v, k = z3.Real("v"), z3.Int("k")
+            s = z3.Solver()
+            s.add(v >= lo, v < hi)
+            if fld == "e":
+                if e_spec is None:
+                    s.add(z3.BoolVal(True))
+                    desc = "eccentricity: the expression '{:.Nf}'.format(e)[a:] was not found in from_orbit"
+                else:
+                    d, drop, arg, cap = e_spec
+                    from fractions import Fraction
+                    # pure integer encoding: e on a grid of 1e-(d+2) (n = e 10^(d+2)), exact ties excluded (|n - 100 k| <= 49)
+                    s = z3.Solver()
+                    n = z3.Int("n")
+                    G = 10 ** (d + 2)
+                    s.add(n >= 0, n < G, v == z3.ToReal(n) / G)
+                    nw = n
+                    if cap is not None:
+                        capn = int(Fraction(repr(cap)) * G)
+                        nw = z3.If(n < capn, n, z3.IntVal(capn))
+                    s.add(nw - 100 * k <= 49, nw - 100 * k >= -49, k >= 0, k <= 10 ** d)
+                    # the formatted text is <integer part>.<d digits>; dropping `drop` characters keeps the d decimals only when
+                    # the integer part is a single digit (drop = 2); the decimals are k mod 10^d
+                    back = z3.If(k >= 10 ** d, k - 10 ** d, k)
+                    # wanted: the nearest value the d-digit field can hold (it saturates at 0.99..9)
+                    ks = z3.Int("k_spec")
+                    s.add(n - 100 * ks <= 49, n - 100 * ks >= -49, ks >= 0, ks <= 10 ** d)
+                    want = z3.If(ks >= 10 ** d, z3.IntVal(10 ** d - 1), ks)
+                    s.add(z3.Or(drop != 2, w != d, back != want))
+                    desc = f"eccentricity in [0, 1): '{{:.{d}f}}'.format({arg})[{drop}:] read back as 0.<digits> is the nearest {d}-digit value to e (saturating at 0.9999999)"
+            else:
+                mt = __import__("re").fullmatch(r"0?(\d+)\.(\d+)f", spec or "")
+                if not mt:
+                    continue
+                d = int(mt.group(2))
+                s.add(2 * (v * 10 ** d - z3.ToReal(k)) < 1, 2 * (v * 10 ** d - z3.ToReal(k)) > -1, k >= 0)     # exact ties excluded
+                back = z3.ToReal(k) / 10 ** d
+                s.add(z3.Or(k >= 10 ** (w - 1), 2 * (back - v) * 10 ** d > 1, 2 * (back - v) * 10 ** d < -1))
+                desc = f"{ln} field '{fld}' (format {spec}, domain [{lo}, {hi})): fits its {w} columns and reads back to half a unit of its last digit"
+            found.add(fld)
+            obs.append(dict(name=f"numeric/{fld}", smt2=s.sexpr(), trivial=False, expect="unsat", vars=["v", "k"], timeout=30, solver="z3",
+                            desc=desc, replay={"kind": "numeric", "field": fld}, n_constraints=len(s.assertions()), tags=["numeric"]))
+    s = z3.Solver()
+    s.add(z3.BoolVal(found != set(NUMERIC)))
+    obs.append(dict(name="numeric/all_fields_found", smt2=s.sexpr(), trivial=False, expect="unsat", vars=[], timeout=10, solver="z3",
+                    desc=f"fixed-point fields found in the writer templates: {sorted(found)}", replay={"kind": "numeric", "field": "missing"},
+                    n_constraints=1, tags=["numeric"]))
+    tw = z3.Solver()
+    tw.add(z3.Real("v") >= 0)
+    obs.append(dict(name="numeric/twin", smt2=tw.sexpr(), trivial=False, expect="sat", vars=[], timeout=10, solver="z3", desc="twin",
+                    replay=None, n_constraints=1, tags=["twin"]))
+    return obs, {"paths": len(found)}
+
+
+def pivot_group():
+    """the two-digit years of a TLE (epoch, international designator): the expression `year += A if <test> else B` of
+    Tle.__init__ is translated from the AST and compared, for every yy in 0..99, with the format's rule 57..99 -> 19yy,
+    00..56 -> 20yy; the writer's `%y` / `[2:]` is its inverse on 1957..2056"""
+    src = open(importlib.import_module(TLE).__file__).read()
+    cls = [n for n in ast.parse(src).body if isinstance(n, ast.ClassDef) and n.name == "Tle"][0]
+    init = [n for n in cls.body if isinstance(n, ast.FunctionDef) and n.name == "__init__"][0]
+    found = []
+    for n in ast.walk(init):
+        if isinstance(n, ast.AugAssign) and isinstance(n.target, ast.Name) and n.target.id == "year" and isinstance(n.value, ast.IfExp):
+            found.append(n)
+    found.sort(key=lambda n: n.lineno)
+    OPS = {ast.GtE: lambda a, b: a >= b, ast.Gt: lambda a, b: a > b, ast.Lt: lambda a, b: a < b, ast.LtE: lambda a, b: a <= b,
+           ast.Eq: lambda a, b: a == b, ast.NotEq: lambda a, b: a != b}
+    obs = []
+    y = z3.Int("yy")
+    for which, n in zip(("cospar", "epoch"), found):
+        t = n.value.test
+        ok = isinstance(t, ast.Compare) and len(t.ops) == 1 and isinstance(t.left, ast.Name) and t.left.id == "year" and \
+            isinstance(t.comparators[0], ast.Constant) and isinstance(n.value.body, ast.Constant) and isinstance(n.value.orelse, ast.Constant) \
+            and type(t.ops[0]) in OPS and isinstance(n.op, ast.Add)
+        s = z3.Solver()
+        s.add(y >= 0, y <= 99)
+        if ok:
+            cond = OPS[type(t.ops[0])](y, z3.IntVal(int(t.comparators[0].value)))
+            code = y + z3.If(cond, z3.IntVal(int(n.value.body.value)), z3.IntVal(int(n.value.orelse.value)))
+            spec = y + z3.If(y >= 57, 1900, 2000)
+            s.add(code != spec)
+        else:
+            s.add(z3.BoolVal(True))
+        obs.append(dict(name=f"pivot/{which}", smt2=s.sexpr(), trivial=False, expect="unsat", vars=["yy"], timeout=20, solver="z3",
+                        desc=f"two-digit {which} year of a TLE: 57..99 -> 1957..1999, 00..56 -> 2000..2056 (expression at line "
+                             f"{n.lineno} of tle.py translated from the AST)", replay={"kind": "pivot", "which": which},
+                        n_constraints=3, tags=["layout"]))
+    s = z3.Solver()
+    s.add(z3.BoolVal(len(found) != 2))
+    obs.append(dict(name="pivot/both_found", smt2=s.sexpr(), trivial=False, expect="unsat", vars=[], timeout=10, solver="z3",
+                    desc="both two-digit-year expressions of Tle.__init__ were found in the AST", replay={"kind": "pivot", "which": "missing"},
+                    n_constraints=1, tags=["layout"]))
+    tw = z3.Solver()
+    tw.add(y >= 0, y <= 99)
+    obs.append(dict(name="pivot/twin", smt2=tw.sexpr(), trivial=False, expect="sat", vars=[], timeout=10, solver="z3", desc="twin",
+                    replay=None, n_constraints=1, tags=["twin"]))
+    return obs, {"paths": len(found)}
+
+
+def _with_checksum(line68):
+    tot = sum(int(c) for c in line68 if c.isdigit()) + line68.count("-")
+    return line68 + str(tot % 10)
+
+
 def groups(tier):
-    g = {"layout": layout_group, "checksum": checksum_group, "corruption": corruption_group}
+    g = {"layout": layout_group, "checksum": checksum_group, "corruption": corruption_group, "pivot": pivot_group, "numeric": numeric_group}
     for l1, l2 in ((69, 69), (68, 69), (70, 69), (69, 68), (69, 70)):
         g[f"validity{l1}x{l2}"] = validity_group(l1, l2)
     for n in range(1, bounds(tier)["from_string_lines"] + 1):
@@ -469,6 +611,43 @@ def replay(ob, model):
         return {"reproduced": int(back) != v, "signature": f"TLE layout: {attr} slice narrower than the written field",
                 "detail": f"{attr}={v} is written as {out.text.splitlines()[0 if rp['line'] == 'line1' else 1]!r} and parsed back as {back}",
                 "inputs": {attr: v}}
+    if kind == "numeric":
+        fld = rp.get("field")
+        if fld == "missing":
+            return {"reproduced": True, "signature": "TLE numeric fields not found", "detail": ob["desc"]}
+        from fractions import Fraction
+        mv = model.get("v", 0)
+        val_ = float(Fraction(*mv)) if isinstance(mv, list) else float(mv)
+        import numpy as np
+        tle = Tle("ISS (ZARYA)\n" + L1 + "\n" + L2)
+        orb = tle.orbit()
+        idx = {"i": 0, "Ω": 1, "e": 2, "ω": 3, "M": 4, "n": 5}.get(fld)
+        if idx is None:
+            return {"reproduced": False, "signature": f"TLE numeric field {fld}", "detail": "no concrete replay for this field"}
+        orb = orb.copy(form="TLE")
+        orb[idx] = val_ if fld == "e" else (val_ * 2 * np.pi / 86400 if fld == "n" else np.radians(val_))
+        try:
+            out = Tle.from_orbit(orb)
+            back = {"i": np.degrees(out.i), "Ω": np.degrees(out.Ω), "e": out.e, "ω": np.degrees(out.ω), "M": np.degrees(out.M),
+                    "n": out.n * 86400 / (2 * np.pi)}[fld]
+            unit = {"e": 1e-7, "n": 1e-8}.get(fld, 1e-4)
+            bad = abs(back - val_) > 0.51 * unit
+            detail = f"{fld} = {val_!r} is written as {out.text.splitlines()[1]!r} and read back as {back!r}"
+        except Exception as e:  # noqa
+            bad, detail = True, f"{fld} = {val_!r}: {type(e).__name__}: {e}"
+        return {"reproduced": bool(bad), "signature": f"TLE numeric field {fld}", "detail": detail, "inputs": {fld: val_}}
+    if kind == "pivot":
+        which = rp.get("which")
+        if which == "missing":
+            return {"reproduced": True, "signature": "TLE year pivot not found", "detail": ob["desc"]}
+        yy = int(model.get("yy", 57))
+        l1 = L1[:68]
+        l1 = (l1[:9] + "%02d" % yy + l1[11:]) if which == "cospar" else (l1[:18] + "%02d" % yy + l1[20:])
+        tle = Tle("ISS (ZARYA)\n" + _with_checksum(l1) + "\n" + L2)
+        want = (1900 if yy >= 57 else 2000) + yy
+        got = int(tle.cospar_id.split("-")[0]) if which == "cospar" else tle.epoch.datetime.year
+        return {"reproduced": got != want, "signature": f"TLE two-digit {which} year", "inputs": {"yy": yy},
+                "detail": f"{which} year '{yy:02d}' is read as {got}, the format says {want}"}
     if kind == "checksum_col":
         col = rp["col"]
         ch = chr(int(model.get(f"c_{col}", 48)))
